@@ -5,7 +5,7 @@ import json, os, shutil, subprocess, sys, glob, re
 ID = sys.argv[1]
 src = sys.argv[2] if len(sys.argv) > 2 else '/tmp/wt/bn-%s/out' % ID
 budget = sys.argv[3] if len(sys.argv) > 3 else '25'
-for d in sorted(glob.glob(os.path.join(src, 'b*'))):
+for d in sorted(glob.glob(os.path.join(src, '[bc][0-9]*'))):
     if not os.path.isdir(d) or not os.path.exists(os.path.join(d, 'patch.diff')):
         continue
     name = '%s-%s' % (ID, os.path.basename(d))
